@@ -371,9 +371,14 @@ func discharge(o *Obligation, timeout time.Duration, solvers []string, extra []s
 	if final.r != "unsat" && !(final.r == "sat" && ground) && !o.ShortTimeout && len(solvers) > 1 && !strings.HasPrefix(o.Kind, "vacuity") && o.Kind != "cover" {
 		// nothing decided it: one more attempt with the two z3 versions under a different random seed (an `unsat` is a proof
 		// whatever the seed; a goal that is really violated stays undecided)
-		t2 := timeout
-		if t2 > 10*time.Second {
-			t2 = 10 * time.Second
+		// a timeout (rather than a quick `unknown`) may be the machine's load and not the goal: give the second attempt
+		// twice the time; quick `unknown`s get a short one
+		t2 := 10 * time.Second
+		if strings.Contains(strings.Join(detail, " "), "=timeout(") {
+			t2 = 2 * timeout
+		}
+		if t2 > 120*time.Second {
+			t2 = 120 * time.Second
 		}
 		ctx2, cancel2 := context.WithCancel(context.Background())
 		ch2 := make(chan res, 2)
